@@ -1,7 +1,7 @@
 import sqlalchemy as sa
 from sqlalchemy.sql.expression import bindparam
 
-from .utils import version_table
+from .utils import version_table, version_table_column
 
 
 class VersionExpressionReflector(sa.sql.visitors.ReplacingCloningVisitor):
@@ -17,14 +17,22 @@ class VersionExpressionReflector(sa.sql.visitors.ReplacingCloningVisitor):
         except KeyError:
             reflected_column = column
         else:
-            reflected_column = table.c[column.name]
+            reflected_column = version_table_column(table, column)
+            if reflected_column is None:
+                raise KeyError(column.name)
             if (
                 column in self.relationship.local_columns and
                 table == self.parent.__table__
             ):
+                # the attribute may be named differently from the column
+                mapper = sa.inspect(self.parent.__class__)
+                try:
+                    key = mapper.get_property_by_column(reflected_column).key
+                except sa.orm.exc.UnmappedColumnError:
+                    key = column.key
                 reflected_column = bindparam(
                     column.key,
-                    getattr(self.parent, column.key)
+                    getattr(self.parent, key)
                 )
 
         return reflected_column
